@@ -89,6 +89,9 @@ def cancelWaiterL (owner : Nat) (ws : List Waiter) : List Waiter :=
 def hasPendingWaiter (owner : Nat) (ws : List Waiter) : Bool :=
   ws.any (fun w => w.owner = owner && w.st == .pending)
 
+/-- the future `owner` is suspended on (its waiter entry) is still pending: `Task.cancel()` cancels that future -/
+def firstIsPending (owner : Nat) (ws : List Waiter) : Bool := (removeWaiterL owner ws).1 == some .pending
+
 /-- `wrapUp`: the worker coroutine has finished, the wrapper is running its own code or a plain callback -/
 inductive Phase | created | inWorker | wrapUp | inCancelCb | inEndCb | finished
 deriving DecidableEq, Repr, Inhabited
@@ -198,6 +201,9 @@ structure Req where
   inRunning  : Bool                -- filed in `_group_meta_tasks_running`
   inCancelled : Bool               -- filed in `_meta_tasks_cancelled`
   doneCbs    : List (Nat × Nat)
+  /-- ghost (read by no step function): `(created, pulled)` at the moment the spawner was first cancelled while it was
+  suspended or had not begun (not from inside its own handle, i.e. not re-entrantly from its own argument iterator) -/
+  cancelSnap : Option (Nat × Nat) := none
 deriving Repr, Inhabited
 
 inductive Child | task (t : Nat) | spawner (m : Nat)
